@@ -29,6 +29,7 @@ META = {
         "Non-trivial: the learned output is non-empty and has a pattern of length >= 2 or a non-empty shading. "
         "Distinct = case content."
     ),
+    "no_shrink": ["auto"],
     "assumptions": [
         "dict inputs carry every key 0..n (the algorithm indexes them directly); predicates are plain functions (types.FunctionType), as the driver requires",
     ],
@@ -289,6 +290,12 @@ def check_auto(case):
 
 CHECKS = {"bisc": check_bisc, "private": check_private, "auto": check_auto, "suffice": check_suffice}
 
+HARD_AUTO = [
+    [[2, 0, 1], [[0, 0], [0, 3], [1, 3], [2, 1], [2, 3], [3, 1]]],
+    [[1, 0, 2], [[0, 0], [1, 1], [1, 2], [2, 0], [2, 2], [3, 0], [3, 1], [3, 2]]],
+    [[1, 0, 2], [[0, 0], [0, 3], [1, 2], [1, 3], [2, 1], [3, 0], [3, 1], [3, 2], [3, 3]]],
+]
+
 
 # ------------------------------------------------------------------ generators
 @st.composite
@@ -351,7 +358,7 @@ def auto_cases(draw, budget):
         if draw(st.booleans()):
             patts.append([list(draw(gen.perms(2, 3))), []])
         else:
-            patts.append(draw(gen.mesh_patterns(2, 3, "sparse")))
+            patts.append(draw(gen.mesh_patterns(2, 3, draw(st.sampled_from(["sparse", "sparse", "half"])))))
     return {"patts": patts, "budget_s": budget}
 
 
@@ -361,6 +368,13 @@ def shard_generated(acc, shard, nshards, n_bisc, n_priv, n_auto, budget):
     engine.hyp_run(acc, "suffice", check_suffice, suffice_cases(5 if n_bisc < 200 else 6), max(20, n_priv // 3), shard)
     if n_auto:
         engine.hyp_run(acc, "auto", check_auto, auto_cases(budget), n_auto, shard)
+    # properties on which the driver's clean-up first picks a basis that does not survive the
+    # re-check against the longer bad permutations (found by searching random dense mesh patterns
+    # of length 3 on the unchanged tree for the driver's "A bad basis was chosen" path, about 1 in
+    # 150): a corpus that steers into that branch; the oracle is the general one
+    for i, patt in enumerate(HARD_AUTO):
+        if i % nshards == shard:
+            acc.record("auto", check_auto, {"patts": [patt], "budget_s": max(budget, 120)})
 
 
 def run(acc, tier):
